@@ -54,6 +54,15 @@ def streams(tier, seed):
     f1 = op_ft(a, "t2", out=1)
     out.append([a, f1, {"op": "rename", "obj": 1, "dim": "t1", "new": "t2"},
                 dict(op_ft(a, "t2", out=2), obj=1)])
+    # an index expression that names the SAME dimension more than once (with different selectors), reading and writing: values
+    # and the coordinate array of that dimension are cut alike
+    for sel in ([["x", {"slice": [0, 6, None]}], ["x", {"slice": [4, 9, None]}]],
+                [["y", {"int": 3}], ["z", {"int": 0}], ["y", {"slice": [0, 2, None]}]],
+                [["x", {"slice": [None, None, 2]}], ["x", {"int": 1}]],
+                [["z", {"slice": [1, None, None]}], ["x", {"int": -1}], ["z", {"slice": [0, 2, None]}]]):
+        a = new_op(rng, 0, dims=["x", "y", "z"], shape=[9, 5, 4], cplx=False, kinds=["asc"] * 4)
+        out.append([a, {"op": "getitem", "obj": 0, "sel": sel, "out": 1}])
+        out.append([a, {"op": "setitem", "obj": 0, "sel": sel, "value": "99999"}])
     n = 80 if tier == "quick" else 1200
     for _ in range(n):
         out.append(history(rng, rng.randint(3, 14)))
